@@ -8,7 +8,8 @@ from ..pair import PairExec, compare_pair
 class C13(C02):
     id = "C13"
     families = ["commits", "partial", "amend", "rebase", "rebase_onto", "rebase_i", "rebase_stop", "cherry_pick",
-                "squash_merge", "reset_recommit", "stash", "switch_carry", "merge"]
+                "squash_merge", "reset_recommit", "stash", "switch_carry", "merge", "pull", "switch_merge",
+                "reset_pathspec", "stash_pathspec"]
     quick_runs, thorough_runs = 250, 4000
     quick_budget_s, thorough_budget_s = 170, 1800
     rule = ("one run = one history family executed in two worlds from the same op list: git-ai as git wrapper, and plain "
